@@ -54,7 +54,8 @@ class LowerExtractAlignedPointerOp(RewritePattern):
             offset_op = MuliOp(offset_div, stride_bytes_op)
             aligned_pointer = AddiOp(aligned_pointer, offset_op)
             ops_to_add.extend([stride_op, stride_bytes_op, bound_op, offset_div, offset_op, aligned_pointer])
-        rewriter.replace_op(op, ops_to_add)
+        # the last op in the list is not the pointer if there are no dynamic offsets
+        rewriter.replace_op(op, ops_to_add, new_results=aligned_pointer.results)
 
 
 class ConvertMemrefToArithPass(ModulePass):
